@@ -463,7 +463,7 @@ def explore_case(harness, case, seed, max_paths=2000, feasibility="linear", time
                 status = "exception"
                 detail = f"{type(e).__name__}: {e}"
                 tb = traceback.extract_tb(e.__traceback__)
-                site = next((f"{os.path.basename(f.filename)}:{f.lineno}" for f in reversed(tb) if "/repo/" in f.filename), None)
+                site = next((f"{os.path.basename(f.filename)}:{f.lineno}" for f in reversed(tb) if "/tdgl/" in f.filename), None)
                 if os.environ.get("SYMX_DEBUG"):
                     traceback.print_exc()
                 if site is None or type(e).__name__ in ("HarnessError",):
@@ -1032,8 +1032,9 @@ def run_harness(harness, tier="quick", seed=0, replay=None, verbose=True):
         wall_s=round(wall, 2),
         violations=len(violations),
     )
-    os.makedirs(os.path.join(VERIF, "evidence"), exist_ok=True)
-    with open(os.path.join(VERIF, "evidence", f"{pid}.json"), "w") as f:
+    evdir = os.environ.get("VERIF_EVIDENCE_DIR") or os.path.join(VERIF, "evidence")  # (override: ad-hoc runs of tools/check_tree.sh)
+    os.makedirs(evdir, exist_ok=True)
+    with open(os.path.join(evdir, f"{pid}.json"), "w") as f:
         json.dump(ev, f, indent=1, default=str)
     batch.cleanup()
     log(f"[{pid}] tier={tier} obligations={len(all_obls)} discharged={discharged + discharged_pre} known={len(known_hits)} violations={len(violations)} "
